@@ -172,6 +172,15 @@ def c14_2(R):
             R.ok("pop-probe=>is-last", pm.name, "removal only when last_segment_seq_nr == seq_nr")
         else:
             R.fail([pm.name, "removal-not-under(last==seq_nr)", ",".join(sorted(descs))], "pop_mtu_probe can remove the last segment although EMSGSIZE was reported for a different sequence number", where=s.where(), instance="pop-probe=>is-last")
+    # the result tells the caller whether a probe was really taken out: true only on a path that does not push the element back
+    pushes = {t.bb for t in pm.calls() if call_on_field(pm, t, ("VecDeque::push_back",), "Segments.segments")}
+    pops = {t.bb for t in pm.calls() if call_on_field(pm, t, ("VecDeque::pop_back",), "Segments.segments")}
+    bad_t = [it for it, cls in ret_assignments(pm) if cls == "const:1" and (any(it.bb in pm.reachable(p) for p in pushes) or not must_pass_blocks(pm, [it.bb], pops)[0])]
+    bad_f = [it for it, cls in ret_assignments(pm) if cls == "const:0" and must_pass_blocks(pm, [it.bb], pops)[0] and any(d.endswith("=Some") for c, truth, d, *_ in controlling(pm, it.bb)) and not any(it.bb in pm.reachable(p) for p in pushes)]
+    if not bad_t and not bad_f:
+        R.ok("pop-probe-result", pm.name, "true <=> the last segment was removed and not pushed back")
+    else:
+        R.fail([pm.name, "result-vs-removal", "true-without-removal=%d false-after-removal=%d" % (len(bad_t), len(bad_f))], "pop_mtu_probe's result no longer says whether the probe was removed: the EMSGSIZE path lowers the ceiling and restarts for a segment that is still queued (or fails although it was removed)", where=(bad_t + bad_f)[0].where(), instance="pop-probe-result")
     px = R.body("stream_tx_segments::Segments::pop_expired_mtu_probe")
     for s in px.stmts():
         if s.rv.kind == "agg" and s.rv.j.get("variant") == "Expired":
